@@ -262,6 +262,7 @@ func c08Alphabet() []e1.Call {
 	updMany(bD("$inc", bD("n", i(1))))
 	updMany(bD("$max", bD("n", i(5)), "$unset", bD("s", ""))) // no-op for some, change for others
 	updMany(bD("$push", bD("arr", i(3))))
+	updMany(bD("$set", bD("n", int64(5)))) // a change of value for one document, of the numeric type only for another
 	add(cUpdate("d", "c", false, bD("_id", i(9)), bD("$set", bD("n", i(1))), true))
 	add(cReplace("d", "c", bD("_id", i(1)), d1, false)) // identical replacement when the document is fresh
 	add(cReplace("d", "c", bD("_id", i(2)), bD("n", i(6)), false))
@@ -293,7 +294,11 @@ func c08Alphabet() []e1.Call {
 				_, e1 := w.C("d", "c").InsertOne(sc, bD("_id", "t1"))
 				_, e2 := w.C("d", "e").UpdateMany(sc, bD(), bD("$set", bD("touched", true)))
 				_, e3 := w.C("d", "c").DeleteOne(sc, bD("_id", i(2)))
-				res = append(res, world.ErrClass(e1), world.ErrClass(e2), world.ErrClass(e3))
+				_, e4 := w.C("d", "c").BulkWrite(sc, []mongo.WriteModel{
+					mongo.NewInsertOneModel().SetDocument(bD("_id", "t2")),
+					mongo.NewUpdateOneModel().SetFilter(bD("_id", i(1))).SetUpdate(bD("$inc", bD("n", i(100)))),
+				})
+				res = append(res, world.ErrClass(e1), world.ErrClass(e2), world.ErrClass(e3), world.ErrClass(e4))
 				return nil
 			})
 			if commit {
@@ -304,8 +309,8 @@ func c08Alphabet() []e1.Call {
 			return strings.Join(res, ",")
 		}})
 	}
-	txn("txn{ins d.c; updMany d.e; del d.c}+commit", true)
-	txn("txn{ins d.c; updMany d.e; del d.c}+abort", false)
+	txn("txn{ins d.c; updMany d.e; del d.c; bulk d.c}+commit", true)
+	txn("txn{ins d.c; updMany d.e; del d.c; bulk d.c}+abort", false)
 	add(cCreateIndex("d", "c", bD("n", i(1)), idxOpt{unique: true}))
 	// TTL expiry over several namespaces in one pass: one delete event per removed document
 	add(e1.Call{Name: "ttl-setup{TTL index on t in d.c, d.e, x.c; one expired and one live document each}", Do: func(w *world.World) string {
